@@ -551,10 +551,10 @@ def run(ctx):
     risky_keep = risky[:ctx.scale(6, 40)]
     alone = set(single) | set(risky)
     batched = [k for k in range(len(cases)) if k not in alone]
-    bsize = 400
+    bsize = 800
     jobs = [("b%d" % n, batched[p:p + bsize], 600) for n, p in enumerate(range(0, len(batched), bsize))]
     # exception cases: sample (every distinct (function, kind of index error) is kept at least 40x)
-    exn_budget = ctx.scale(160, 1500)
+    exn_budget = ctx.scale(80, 1500)
     step = max(1, len(single) // exn_budget)
     single_run = single[::step]
     jobs += [("e%d" % k, [k], 20) for k in single_run]
@@ -656,3 +656,27 @@ def run(ctx):
         "(all intermediate values lie between -1 and 2*len+1 or between the two arguments of range)",
         "the model contains the empty-needle guards of patches/prelude-fix-empty-needle.diff for split and replace",
     ]
+
+
+def replay(ctx, path):
+    """Re-run the expression(s) of a replay file against the current build. An oracle replay fails
+    again if the implementation still does not print the expected value; a correspondence replay
+    fails if the implementation still differs from the recorded model output."""
+    import json
+    obj = json.load(open(path))
+    sdir = ctx.scratch("c32-replay")
+    items = []
+    if obj.get("kind") == "oracle":
+        items.append((obj.get("key", "C32/replay"), obj["expr"], obj.get("expected"), obj.get("what", "")))
+    else:
+        for b in obj.get("broken", []):
+            if b.get("kind") == "correspondence" and "expr" in b.get("input", {}):
+                items.append(("C32/replay-correspondence", b["input"]["expr"], b.get("model"), b.get("what", "")))
+    ctx.rule = "replay of %d recorded expression(s)" % len(items)
+    for n, (key, expr, expected, what) in enumerate(items):
+        got = run_batch(ctx, sdir, "r%d" % n, [expr], 120)[0]
+        ctx.case(expr, True)
+        ctx.sample({"expr": expr, "impl": got, "expected": expected})
+        ok = got.startswith("EXN ") if expected in ("an exception",) or str(expected).startswith("EXN ") else got == expected
+        if not ok:
+            ctx.fail(key, what or "replayed expression still differs", expr=expr, observed=got, expected=expected)
